@@ -19,7 +19,8 @@ RULE = ('E2: every frame script with at most F frames in total spread over '
         'a propagated exception, a zero increment.')
 
 INCS = (0, 0.5, 1, 3)
-CONT = ('nothing', 'switch', 'loop_switch', 'clear_handle')
+CONT = ('nothing', 'switch', 'loop_switch', 'clear_handle', 'switch_self',
+        'swap_clock')
 TERM = ('quit', 'quit_loop_world', 'quit_loop_default', 'runtime',
         'quit_loop_handler_raises', 'switch_quit_on_entry',
         'switch_boom_on_entry')
@@ -61,6 +62,16 @@ class SP(desper.Processor):
         if action == 'switch':
             other = envx.handles['B' if self.label[0] == 'A' else 'A']
             raise desper.SwitchWorld(other)
+        if action == 'switch_self':
+            # desper.switch towards the handle the loop already runs: the
+            # frame is abandoned, the same world goes on - and listens
+            desper.switch(envx.loop.current_world_handle,
+                          from_world=self.world)
+        if action == 'swap_clock':
+            # the public time_function attribute is assigned during a run:
+            # from the next iteration on the loop reads the new function
+            envx.clock_gen += 1
+            envx.loop.time_function = envx.make_clock(envx.clock_gen)
         if action == 'clear_handle':
             # the cache of the current handle is dropped while its world
             # keeps running: the loop goes on with that same world
@@ -148,6 +159,13 @@ class FixedHandle(desper.Handle):
             return self.world
         return self.rebuild('*' * (self.loads - 1))
 
+    # value equality is legal for handles: all of them are equal here
+    def __eq__(self, other):
+        return isinstance(other, FixedHandle)
+
+    def __hash__(self):
+        return 13
+
 
 def run_case(case):
     if case and isinstance(case[0], (int, float, str)):
@@ -183,18 +201,26 @@ def run_case(case):
         envx.handles[label] = FixedHandle(
             w, lambda stars, label=label: build(label + stars))
 
-    def clock():
-        if not envx.script:
-            raise Horizon()
-        envx.frame = envx.script.pop(0)
-        envx.frame_no += 1
-        envx.done = False
-        envx.now += (fractions.Fraction(envx.frame[0]) if exact
-                     else envx.frame[0])
-        envx.readings.append(envx.now)
-        return envx.now
+    envx.clock_gen = 0
+    envx.stale_clock = None
 
-    loop = desper.SimpleLoop(clock)
+    def make_clock(gen):
+        def clock():
+            if gen != envx.clock_gen and envx.stale_clock is None:
+                envx.stale_clock = (gen, envx.clock_gen, envx.frame_no + 1)
+            if not envx.script:
+                raise Horizon()
+            envx.frame = envx.script.pop(0)
+            envx.frame_no += 1
+            envx.done = False
+            envx.now += (fractions.Fraction(envx.frame[0]) if exact
+                         else envx.frame[0])
+            envx.readings.append(envx.now)
+            return envx.now
+        return clock
+
+    envx.make_clock = make_clock
+    loop = desper.SimpleLoop(make_clock(0))
     envx.loop = loop
     old_default = desper.default_loop
     uses_default = any(f[2] == 'quit_loop_default'
@@ -261,7 +287,7 @@ def run_case(case):
                 if inc == 0 and fi > 0:
                     hits['zero_increment'] = 1
                 last = 2 if action in ('nothing', 'loop_switch',
-                                       'clear_handle') else pos
+                                       'clear_handle', 'swap_clock') else pos
                 for p in range(last + 1):
                     want.append((first_frame + fi, labels[current], p, dt,
                                  True))
@@ -279,9 +305,25 @@ def run_case(case):
                         labels[current] += '*'
                         reloaded.add(current)
                         hits['entered_handle_reloads_after_clear'] = 1
+                if action == 'switch_self':
+                    hits[action] = 1
+                    if current in cleared:
+                        cleared.discard(current)
+                        labels[current] += '*'
+                        reloaded.add(current)
+                if action == 'swap_clock':
+                    hits[action] = 1
                 if action == 'clear_handle':
                     hits[action] = 1
                     cleared.add(current)
+            if envx.stale_clock is not None:
+                gen, now_gen, frame = envx.stale_clock
+                raise Violation(
+                    'reads_its_time_function_every_iteration',
+                    f'start #{si} of {case}: in frame {frame} the loop '
+                    f'called time function #{gen} although '
+                    f'loop.time_function had been assigned #{now_gen}',
+                    **feats)
             got = envx.log
             if [r[:3] for r in got] != [r[:3] for r in want]:
                 raise Violation(
@@ -365,6 +407,9 @@ def frame_menu(terminating):
                 out.append((inc, pos, 'switch'))
             out.append((inc, 1, 'loop_switch'))
             out.append((inc, 1, 'clear_handle'))
+            if inc == 1:
+                out.append((inc, 1, 'switch_self'))
+                out.append((inc, 1, 'swap_clock'))
     return out
 
 
@@ -403,6 +448,11 @@ def cases(tier):
                 if base != 10.0 and sum(comp) > 3:
                     continue    # zero-crossing clocks: <= 3 frames in total
                 out.append((base, tuple(combo)))
+    if tier == 'quick':
+        # three runs of the same loop object, one terminating frame each
+        singles = [(1, 1, action) for action in TERM]
+        for combo in itertools.product(singles, repeat=3):
+            out.append((10.0, tuple((f,) for f in combo)))
     return out
 
 
@@ -421,11 +471,18 @@ def run(tier, rep):
         'raises Quit / another exception when the loop releases it on '
         'entering: start() returns / the exception propagates, the current '
         'world is the one entered, and the next start begins with dt = 0',
+        'switch_self: desper.switch towards the handle the loop already '
+        'runs (frame abandoned, same world goes on and keeps listening: a '
+        'later quit_loop reaches it); swap_clock: loop.time_function is '
+        'assigned another function reading the same script - from the next '
+        'iteration on the loop must call the new one; quick adds every '
+        'triple of single-frame starts (three runs of one loop object)',
         'the worlds of handle B are falsy World subclasses; unless a frame '
         'uses quit_loop() without argument, desper.default_loop is another, '
         'idle loop whose world must never hear on_quit',
     ]
-    rep.require_hits(switch_quit_on_entry=1, switch_boom_on_entry=1)
+    rep.require_hits(switch_quit_on_entry=1, switch_boom_on_entry=1,
+                     switch_self=1, swap_clock=1)
     rep.require_hits(switch=1, loop_switch=1, restart=1, clear_handle=1,
                      quit_loop_handler_raises=1, clear_handle_hit=0,
                      restart_after_exception=1,
